@@ -428,6 +428,43 @@ func runC15(c *core.Ctx) {
 					c.Violate("C15|"+cfg.Name+"|txpower", "GetTXPowerOffset(%d) = %d", i, off)
 				}
 			}
+			// index lists handed to the LinkADRReq planner: a device may report channels the plan does not
+			// have (any more), and a caller may pass nonsense; no panic, and what comes back is encodable
+			for k := 0; k < 3; k++ {
+				var dev []int
+				for i := range up {
+					if r.Bool() {
+						dev = append(dev, i)
+					}
+				}
+				cls := "past-end"
+				switch k {
+				case 0:
+					// stale indices inside the last 16-channel block of the plan: the planner switches them off
+					if room := (len(up)+15)/16*16 - len(up); room > 0 {
+						dev = append(dev, len(up)+r.Intn(room), len(up)+r.Intn(room))
+					}
+				case 1:
+					dev = append(dev, -1-r.Intn(3))
+					cls = "negative"
+				default:
+					dev = append(dev, weird[r.Intn(len(weird))])
+					cls = "weird"
+				}
+				var pls []lorawan.LinkADRReqPayload
+				c.Eval(1)
+				if p, msg := core.Guard(func() { pls = b.GetLinkADRReqPayloadsForEnabledUplinkChannelIndices(dev) }); p {
+					c.Violate("C15|"+cfg.Name+"|panic|GetLinkADRReqPayloadsForEnabledUplinkChannelIndices|"+cls, "device channel list %v with %d channels in the plan panics: %s", dev, len(up), short(msg, 200))
+					continue
+				}
+				if cls == "past-end" { // for nonsense indices (negative, huge) only "no panic" is asked
+					for _, pl := range pls {
+						pl := pl
+						c15Encodable(c, cfg, "LinkADRReq", "planner("+cls+" device index)", func() (interface{}, interface{}, error) { return roundTripMAC(&pl) })
+					}
+				}
+				c.Shape("planner-index-class", cfg.Name, cls)
+			}
 			if good && h%4 == 0 {
 				c15Outputs(c, cfg, b, up, down)
 			}
